@@ -643,9 +643,11 @@ pub fn main(ctx: &Ctx) {
     let cases = pair_cases(ctx);
     run_cases(ctx, &C05 { part_name: "pairs" }, "pairs", cases, true);
     run_pbt(ctx, &C05 { part_name: "programs" }, ctx.tier.pick(40_000, 800_000));
+    run_committed_replays(ctx, &super::c05srv::C05Srv);
+    run_pbt(ctx, &super::c05srv::C05Srv, ctx.tier.pick(320, 6_400));
 }
 
 pub fn replay(ctx: &Ctx, v: &serde_json::Value) -> Option<i32> {
     sched::install();
-    replay_file(ctx, &C05 { part_name: "pairs" }, v).or_else(|| replay_file(ctx, &C05 { part_name: "programs" }, v))
+    replay_file(ctx, &C05 { part_name: "pairs" }, v).or_else(|| replay_file(ctx, &C05 { part_name: "programs" }, v)).or_else(|| replay_file(ctx, &super::c05srv::C05Srv, v))
 }
